@@ -1,7 +1,7 @@
 (** C05_micro. Accounting under every interleaving of the micro steps of puts, deletes and reads (calls split at every schedule point)
     This file only pins statements: every theorem restates a lemma of proofs/ verbatim and is closed by it. *)
 From CacheD Require Import Base Sketch Model Window Micro.
-From CacheD.proofs Require Import Defs ApiProofs HistoryProofs.
+From CacheD.proofs Require Import Defs ApiProofs HistoryProofs StatsProofs.
 From CacheD.proofs Require Import MicroProofs.
 
 (** the micro steps of one call, executed back to back by a caller that is not inside another call, are the
